@@ -18,11 +18,13 @@ ACCEPTED_WRITES: Dict[str, str] = {
     "cube.py::Cube [store 'elements']": "augment_response: caller-owned response of a single-filter column cube; guarded by the length test which the three writes falsify (counts get the summary's length)",
     "cube.py::Cube [store 'counts']": "augment_response: same guard; written value has the summary's length, so a second call is a no-op",
     "cube.py::Cube [store 'data']": "augment_response: same guard",
-    "cube.py::Cube [call .insert]": "inflate: called only from CubeSet._cubes under _is_numeric_measure (first response has no dimensions), which the insertion into THAT response falsifies for any later CubeSet",
     "cube.py::_BaseMeasure [read-only flag]": "makes the cached raw array read-only (the mechanism that protects it); `flags.writeable = False` or `setflags(write=False)`",
     "dimension.py::_ElementIdShim [store 'subvar_alias']": "adds a key that no value computation reads (aliases are read from value.references.alias / id); rewriting gives the same value",
     "dimension.py::_ElementIdShim [store 'datetime_value']": "copy of el['value'], which is never modified",
     "util.py::lazyproperty [store __dict__]": "the descriptor's own cache store",
+    # NOT accepted (D29): `Cube.inflate` inserting the synthetic rows dimension into the CALLER's response.  Through CubeSet
+    # the edit is self-limiting (the inflated response no longer has 0 dimensions), but `inflate` is public: a second
+    # `Cube(d).inflate()` on the same dict stacks a second dimension.  The inflated cube gets a response of its own.
     # NOT accepted (D23): stores of 'elements' / 'element_ids' / 'top' / 'bottom' into the CALLER's transforms dict by the id
     # shim.  The translation is a retraction only with respect to ONE dimension; the same dict used for a cube with other
     # sub-variables would find keys already rewritten to foreign aliases and drop them.  The shim rewrites a copy.
@@ -33,7 +35,7 @@ def run(ctx: Ctx):
     ctx.explanation = (
         "EFFECTS: complete inventory of writes (stores, augmented assignments, del, mutating method calls, out= arguments) "
         "with a freshness classification of the written object; every write to an object not created by the writing "
-        "function must be one of the 8 listed sites, each with its idempotence argument (the retraction property of the "
+        "function must be one of the 7 listed sites, each with its idempotence argument (the retraction property of the "
         "id translation is decided by DECTAB); descriptor discipline of lazyproperty; read-only raw arrays; no module "
         "state; one-shot iterators are not cached for several readers; the raw response argument is only read through "
         "the normaliser (JSON / dict / envelope equivalence); who may call the two response-editing methods."
@@ -84,7 +86,7 @@ def write_inventory(ctx: Ctx):
         ctx.note(f"listed write site no longer present: {k}")
     ctx.require_min("write sites in the package", 120)
     # positive control: the classifier must still recognise the known caller-owned writes
-    ctx.require_min("non-fresh write sites", 8)
+    ctx.require_min("non-fresh write sites", 7)
     # positive control of the Fresh class: the NaN stores of population_proportions go to a freshly assembled array
     fresh_stores = [w for w in sites if w.cls == "Fresh" and w.kind == "store" and w.member.cls.name in ("_Slice", "_Strand")]
     ctx.count("stores into freshly assembled arrays (_Slice/_Strand)", len(fresh_stores))
